@@ -52,6 +52,64 @@ def _large_cases(th):
         yield {'large': {'sizes': sizes, 'seed': i + 1}, 'again': None}
 
 
+def _huge_input_cases(th):
+    # per-spike input files above 64 MiB (9 million spikes with 64-bit ids)
+    yield {'huge_inputs': {'ns': 9000000, 'seed': 5}, 'again': None}
+    if th:
+        yield {'huge_inputs': {'ns': 17000000, 'seed': 6}, 'again': None}
+
+
+def _check_huge_inputs(par):
+    """Spike conservation, time order, constant id offsets and untouched inputs, vectorised."""
+    ns = par['ns']
+    rs = np.random.RandomState(par['seed'])
+    case = _expand_large({'sizes': [50, 60], 'seed': par['seed']})
+    with env.scratch() as d:
+        Ts = G.build_probes(case, d)
+        # the second probe is a long recording: its per-spike files are replaced by big ones
+        big = Ts[1].dir
+        nt = Ts[1].spec['nt']
+        times = np.sort(rs.randint(0, 3 * ns, size=ns)).astype(np.int64)
+        tmpl = rs.randint(0, nt, size=ns).astype(np.int64)
+        amps = rs.rand(ns)
+        np.save(big / 'spike_times.npy', times)
+        np.save(big / 'spike_templates.npy', tmpl)
+        np.save(big / 'spike_clusters.npy', tmpl)
+        np.save(big / 'amplitudes.npy', amps)
+        np.save(big / 'pc_features.npy', np.zeros((ns, 3, 2), dtype=np.float32))
+        np.save(big / 'template_features.npy', np.zeros((ns, 2), dtype=np.float32))
+        before = [D.sha_dir(T.dir) for T in Ts]
+        merger, model = G.run_merge(Ts, d / 'merged', must_return)
+        try:
+            model.close()
+        except Exception:
+            pass
+        after = [D.sha_dir(T.dir) for T in Ts]
+        for k, (b, a) in enumerate(zip(before, after)):
+            require(a == b, 'input directory of probe %d changed' % k, key='inputs-changed',
+                    observed=sorted(set(a.items()) ^ set(b.items())))
+        out = d / 'merged'
+        t0 = np.asarray(Ts[0].samples).astype(np.int64)
+        allt = np.r_[t0, times]
+        order = np.argsort(allt, kind='stable')
+        mt_ = np.load(out / 'spike_times.npy')
+        same_array('merged spike times (stable time-sorted concatenation)', mt_.astype(np.int64),
+                   allt[order], key='times')
+        probe = np.r_[np.zeros(len(t0), dtype=np.int64), np.ones(ns, dtype=np.int64)][order]
+        orig = np.r_[np.asarray(Ts[0].spike_templates).astype(np.int64), tmpl][order]
+        for name in ('spike_templates.npy', 'spike_clusters.npy'):
+            m_ = np.load(out / name).astype(np.int64)
+            off = m_ - orig
+            for k in (0, 1):
+                o = off[probe == k]
+                require(len(o) and np.all(o == o[0]) and o[0] >= 0, '%s: offset is not constant '
+                        'within probe %d' % (name, k), key='offset-constant')
+        same_array('merged amplitudes', np.load(out / 'amplitudes.npy'),
+                   np.r_[np.asarray(Ts[0].amplitudes, dtype=np.float64), amps][order],
+                   key='amplitudes', dtype=False)
+    return {'cross_tie': True}
+
+
 def _expand_large(par):
     probes = []
     for k, ns in enumerate(par['sizes']):
@@ -74,7 +132,10 @@ def _expand_large(par):
 
 def drivers(tier):
     th = tier == 'thorough'
-    return [dict(kind='enum', name='large', exhaustive=False,
+    return [dict(kind='enum', name='huge-inputs', exhaustive=False,
+                 bound='one probe with 9 (thorough: also 17) million spikes (input files of 72 MiB)',
+                 cases=lambda: _huge_input_cases(th)),
+            dict(kind='enum', name='large', exhaustive=False,
                  bound='more than 2**18 (second case and thorough: 2**20) merged spikes',
                  cases=lambda: _large_cases(th)),
             dict(kind='hyp', name='merges', strategy=_case(), examples=60000 if th else 6000)]
@@ -189,6 +250,8 @@ def _verify(Ts, out, model, info):
 
 def check(case):
     info = {}
+    if 'huge_inputs' in case:
+        return _check_huge_inputs(case['huge_inputs'])
     if 'large' in case:
         case = dict(_expand_large(case['large']), again=case.get('again'))
     with env.scratch() as d:
@@ -248,6 +311,8 @@ def check(case):
 
 
 def classify(case, info):
+    if 'huge_inputs' in case:
+        return ['huge-inputs:%d-spikes' % case['huge_inputs']['ns']], True
     if 'large' in case:
         return ['large:%d-merged-spikes' % sum(case['large']['sizes']),
                 'probes:%d' % len(case['large']['sizes'])], True
